@@ -216,7 +216,7 @@ def w_shortest(ctx, rng, i):
     if mode == 0:
         p = float(rng.uniform(0.001, 99.999))
     elif mode == 1:   # lag 0
-        p = float(rng.uniform(0.0001, 100.0 / n * 0.999))
+        p = float(rng.uniform(min(0.0001, 50.0 / n), 100.0 / n * 0.999))
     elif mode == 2:   # lag 1
         p = 100.0 * 1.5 / n if n > 2 else 60.0
     elif mode == 3:   # lag len-1
